@@ -23,6 +23,8 @@ var checkers = map[string]func(r *Report){
 	"C07": checkC07,
 	"C08": checkC08,
 	"C09": checkC09,
+	"C10": checkC10,
+	"C11": checkC11,
 	"C12": checkC12,
 	"C13": checkC13,
 	"C14": checkC14,
@@ -85,6 +87,11 @@ func main() {
 				}
 			}
 		}
+	case "debug-c10":
+		if len(os.Args) > 2 {
+			repoRoot = os.Args[2]
+		}
+		debugC10(loadResolve("", true))
 	case "debug-nil":
 		if len(os.Args) > 2 {
 			repoRoot = os.Args[2]
